@@ -3,7 +3,7 @@
 # Transceiver instance: no sockets are opened) with the line protocol of the Lean driver.
 #   hop.py    HSN MAIO FN MA            -> ok RX TX | EXC <class>
 #   hop.pypnm N                         -> PNM | EXC <class>
-#   hop.freq  FH HSN MAIO FN MA RX0 TX0 -> init=<ok|EXC:c|-> rx=<v|None|EXC:c> tx=<…>
+#   hop.freq  FH HSN MAIO FN MA RX0 TX0 -> init=<ok|EXC:c|-> rx=<v|None|EXC:c> tx=<…>   (FH: 0 none, 1 enable_fh, 2 enable_fh + disable_fh)
 # oracle verbs (stateful, not mirrored by the Lean driver):
 #   o.setfh HSN MAIO MA                 -> ok | EXC <class>      keeps the HoppingParams object
 #   o.range FN COUNT                    -> COUNT results "rx" (space separated) of resolve(fn..fn+count-1)
@@ -65,6 +65,8 @@ for line in sys.stdin:
                     ini = "ok"
                 except Exception as e:
                     ini = "EXC:%s" % type(e).__name__
+                if int(tok[1]) == 2:
+                    transceiver.Transceiver.disable_fh(trx)
             fn = int(tok[4])
             print("init=%s rx=%s tx=%s" % (ini,
                   call(lambda: transceiver.Transceiver.get_rx_freq(trx, fn)),
